@@ -116,6 +116,53 @@ func Symbolic() bool { return false }
 // F64 is a real-valued input in [lo,hi] (arithmetic mode only).
 func F64(n string, lo, hi float64) float64 { panic("F64 inputs cannot be replayed natively") }
 
+// B2I is 1 for true, 0 for false, without a fork under the engine (intrinsic).
+func B2I(b bool) int {
+	if b {
+		return 1
+	}
+	return 0
+}
+
+// And is a non-short-circuit conjunction (no fork under the engine; intrinsic).
+func And(bs ...bool) bool {
+	for _, b := range bs {
+		if !b {
+			return false
+		}
+	}
+	return true
+}
+
+// Or is a non-short-circuit disjunction (intrinsic).
+func Or(bs ...bool) bool {
+	for _, b := range bs {
+		if b {
+			return true
+		}
+	}
+	return false
+}
+
+// Implies is !a || b without a fork (intrinsic).
+func Implies(a, b bool) bool { return !a || b }
+
+// IteInt selects without a fork (intrinsic).
+func IteInt(c bool, a, b int) int {
+	if c {
+		return a
+	}
+	return b
+}
+
+// IteU8 selects without a fork (intrinsic).
+func IteU8(c bool, a, b uint8) uint8 {
+	if c {
+		return a
+	}
+	return b
+}
+
 // Panics runs f and reports whether it panicked (ordinary Go; interpreted by the engine as is).
 func Panics(f func()) (p bool) {
 	defer func() {
